@@ -217,8 +217,11 @@ def validator_rules(ck):
                           'location_test': {'bbox': [0, 0, 1, 1]}}}
     for spec, want_ok in (('mean - 2 * std', True), ('min', True), ('mean - 2 * sigma', False), ('mean ^ 2', False), ('( mean )', True)):
         try:
-            it.instantiate(QVC, [cfg(spec)], {}, None)
+            inst2 = it.instantiate(QVC, [cfg(spec)], {}, None)
             got_ok = True
+            if want_ok:
+                ck.ob('C20.validate', f'QcVariableConfig(...) holds its configuration', getattr(inst2, 'dict_data', None) == cfg(spec),
+                      key='QcVariableConfig:constructor-drops-config', what='a validated QcVariableConfig does not contain the configuration it was built from')
         except AbsRaise as e:
             got_ok = False
         ck.ob('C20.validate', f'QcVariableConfig(suspect_min={spec!r})', got_ok == want_ok, key='QcVariableConfig:constructor-validation',
@@ -234,7 +237,12 @@ def wiring_rules(ck):
     inst.attrs['datasets'] = {}
     values = [Fr(1), Fr(2), Fr(3), Fr(6)]
     subset = Vec.fresh([El(X.num(v), False) for v in values] + [El(X.NAN, False)], kind='nd', dtype='f8')
-    it.hooks['QcConfigCreator._get_subset'] = lambda interp, fv, args, kwargs, node: subset
+    seen = []
+
+    def subset_hook(interp, fv, args, kwargs, node):
+        seen.append((args[1:], kwargs))
+        return subset
+    it.hooks['QcConfigCreator._get_subset'] = subset_hook
     try:
         vc = {'variable': 'temp', 'bbox': [0, 0, 1, 1], 'start_time': '2020-01-01', 'end_time': '2020-02-01', 'tests': {
             'gross_range_test': {'suspect_min': 'min + 1', 'suspect_max': 'max - 1', 'fail_min': 'min - mean', 'fail_max': 'max * 2'},
@@ -248,6 +256,14 @@ def wiring_rules(ck):
         except AbsRaise as e:
             ck.violate('C20.wiring', f'create_config:raises-{e.exc.tname}', f'create_config raises {e.exc.tname}{e.exc.args}')
             return
+        okargs = False
+        if seen:
+            a, k = seen[0]
+            a = list(a) + [k.get(n) for n in ('var', 'bbox', 'time_slice')][len(a):]
+            okargs = (a[0] == 'temp' and a[1] == [0, 0, 1, 1] and isinstance(a[2], slice) and getattr(a[2].start, 't', None) is not None
+                      and a[2].start.t < a[2].stop.t)
+        ck.ob('C20.wiring', '_get_stats -> _get_subset(variable, bbox, slice(start, end))', okargs, key='create_config:_get_subset-arguments',
+              what=f'_get_stats calls _get_subset with {seen[:1]}, expected (variable name, bbox, slice(start_time, end_time))')
         mn, mx, mean = X.num(1), X.num(6), X.num(3)
         std = X.red('std', [X.num(v) for v in values])
         want = {
